@@ -1225,6 +1225,142 @@ func c04PageTable(c *Ctx, pr *paginatedRoles, rule string) {
 		}
 	}
 	c.R.floor(rule, "stores to the page table", n, 5)
+	c04PageSlots(c, pr, rule, table)
+}
+
+// c04PageSlots: a slot of the page table is `pages[x − first]`, with the table and its first page index as they are
+// at the same moment: the accessor re-bases the table when it grows to the left, so a first page index read before a
+// call that may grow the table (anything that adds to the store) does not belong to the table read after it. For
+// every such slot expression, no call whose write set reaches the table lies on a way from the read of the base to the
+// read of the table (or back).
+func c04PageSlots(c *Ctx, pr *paginatedRoles, rule string, table map[string]bool) {
+	fieldLoad := func(v ssa.Value) (*ssa.UnOp, string) {
+		u, ok := v.(*ssa.UnOp)
+		if !ok || u.Op != token.MUL {
+			return nil, ""
+		}
+		fa, ok := u.X.(*ssa.FieldAddr)
+		if !ok || !types.Identical(derefType(fa.X.Type()), pr.typ) {
+			return nil, ""
+		}
+		return u, fieldName(fa.X.Type(), fa.Field)
+	}
+	touchesTable := func(fn *ssa.Function) bool {
+		for l := range c.Mod.Mods[fn] {
+			rest := locRest(l)
+			for fld := range table {
+				if rest == "."+fld {
+					return true
+				}
+			}
+		}
+		return false
+	}
+	n := 0
+	for _, f := range c.P.Funcs {
+		if !inModule(f) || len(f.Blocks) == 0 {
+			continue
+		}
+		// block reachability (lazily)
+		var reach map[*ssa.BasicBlock]map[*ssa.BasicBlock]bool
+		reaches := func(a, b *ssa.BasicBlock) bool { // a path of ≥ 1 edge from a to b
+			if reach == nil {
+				reach = map[*ssa.BasicBlock]map[*ssa.BasicBlock]bool{}
+			}
+			if reach[a] == nil {
+				seen := map[*ssa.BasicBlock]bool{}
+				var dfs func(x *ssa.BasicBlock)
+				dfs = func(x *ssa.BasicBlock) {
+					for _, sc := range x.Succs {
+						if !seen[sc] {
+							seen[sc] = true
+							dfs(sc)
+						}
+					}
+				}
+				dfs(a)
+				reach[a] = seen
+			}
+			return reach[a][b]
+		}
+		pos := func(in ssa.Instruction) int {
+			for i, x := range in.Block().Instrs {
+				if x == in {
+					return i
+				}
+			}
+			return -1
+		}
+		// after(a, b): instruction b can execute after instruction a
+		after := func(a, b ssa.Instruction) bool {
+			if a.Block() == b.Block() && pos(a) < pos(b) {
+				return true
+			}
+			return reaches(a.Block(), b.Block())
+		}
+		perFn := 0
+		for _, b := range f.Blocks {
+			for _, in := range b.Instrs {
+				var base, idx ssa.Value
+				switch x := in.(type) {
+				case *ssa.IndexAddr:
+					base, idx = x.X, x.Index
+				case *ssa.Index:
+					base, idx = x.X, x.Index
+				default:
+					continue
+				}
+				tl, fld := fieldLoad(base)
+				if tl == nil || !table[fld] || derefType(tl.Type()).String() != "[][]float64" {
+					continue
+				}
+				sub, ok := idx.(*ssa.BinOp)
+				if !ok || sub.Op != token.SUB {
+					continue
+				}
+				ml, mfld := fieldLoad(sub.Y)
+				if ml == nil || !table[mfld] {
+					continue
+				}
+				n++
+				perFn++
+				bad := ""
+				for _, b2 := range f.Blocks {
+					for _, in2 := range b2.Instrs {
+						call, ok := in2.(ssa.CallInstruction)
+						if !ok {
+							continue
+						}
+						var callees []*ssa.Function
+						if cal := call.Common().StaticCallee(); cal != nil {
+							callees = append(callees, cal)
+						}
+						for _, a := range call.Common().Args {
+							if mc, ok := a.(*ssa.MakeClosure); ok {
+								callees = append(callees, mc.Fn.(*ssa.Function))
+							}
+						}
+						mod := false
+						for _, cal := range callees {
+							if touchesTable(cal) {
+								mod = true
+							}
+						}
+						if !mod {
+							continue
+						}
+						ci := in2.(ssa.Instruction)
+						if after(ml, ci) && after(ci, tl) || after(tl, ci) && after(ci, ml) && after(ml, in) {
+							bad = "the call at " + c.ipos(ci) + " may re-base the page table between the read of its first page index and the read of the table"
+						}
+					}
+				}
+				c.R.check(bad == "", rule, fmt.Sprintf("page-table/%s/slot%d-from-current-base", helperKey(f), perFn), shortFn(f), c.ipos(in),
+					"a slot pages[x − first] uses the table and its first page index of the same moment (no call that may grow the table in between)", firstNonEmpty(bad, "no table-changing call in between"))
+			}
+		}
+	}
+	c.R.floor(rule, "page slots computed from the first page index", n, 4)
 }
 
 // c04PageUse: what the page accessor returns for ensureExists == false may be nil OR an emptied slot (Clear keeps the
